@@ -56,6 +56,7 @@ def build(h, cast):
                 ops.append({"op": "close", "c": c})
             elif e["x"] == "malformed":
                 ops.append({"op": "raw", "c": c, "hex": "f000", "cls": "reserved-type", "ms": 30})
+                ops.append({"op": "settle"})     # the teardown's broadcasts are delivered before the script goes on
             elif e["x"] == "second-connect":
                 ops.append({"op": "send", "c": c, "kind": "CONNECT", "client": "again"})
         elif op == "publish":
